@@ -71,11 +71,12 @@ def check_set_params(run):
     fn = "formak.python:SklearnEKFAdapter.set_params (executed for all key sequences of length <= 2)"
     cases = K.set_params_cases()
     bad = []
-    for keys in cases:
+    # every key sequence twice: with all Config fields holding values, and with innovation_filtering currently None (filtering off)
+    for keys, disabled in [(k, d) for k in cases for d in (False, True)]:
         I = Interp(driver.REPO, Path([]), contracts={}, models=Models())
         I.inline |= {"formak.python:SklearnEKFAdapter.set_params"}
         try:
-            obj, cfg, vals, outcome = K.run_set_params(I, keys)
+            obj, cfg, vals, outcome = K.run_set_params(I, keys, filtering_disabled=disabled)
         except Unsupported as u:
             run.undecided.append(f"C17.py.set_params[{'+'.join(keys)}] (interpreter: {u}; covered by the native checks only)")
             continue
@@ -84,6 +85,7 @@ def check_set_params(run):
             continue
         old = {k: f"old.{k}" for k in K.ALLOWED}
         want_outcome, want_attrs, want_cfg, want_cfg_obj = K.expected_after(keys, cfg, vals, {k: None for k in K.ALLOWED})
+        n_bad = len(bad)
         if want_outcome == "raise":
             if outcome != ("raise", "ModelConstructionError"):
                 bad.append((keys, f"unknown parameter name not refused with ModelConstructionError: {outcome}"))
@@ -105,6 +107,8 @@ def check_set_params(run):
                 break
         if want_cfg_obj is None and c is cfg:
             bad.append((keys, "the shared Config object was edited in place instead of being replaced"))
+        if disabled:
+            bad[n_bad:] = [(k2, "with innovation_filtering currently None: " + why2) for k2, why2 in bad[n_bad:]]
     ob = run.prove("C17.py.set_params.every_key_sequence_up_to_length_2", [], z3.BoolVal(not bad), function=fn)
     run.extra["set_params_sequences_enumerated"] = len(cases)
     if bad:
@@ -139,6 +143,16 @@ def native_checks(run, seeds):
         got = ({str(k): v for k, v in p["process_noise"].items()}, p["sensor_noises"])
         if got != ({"a": 3.0, "b": 1e-06}, {"position": {"x": 7.0, "xv": 8.0}, "velocity": {"v": 9.0}}):
             problems.append(f"_inverse_flatten_scoring_params gave {got}")
+        # a Config field whose CURRENT value is None (filtering off) is still a Config field
+        py0, ui0, est0, info0 = sklearn_native.simple_adapter(seed, 1, 1, {"innovation_filtering": None})
+        before0 = est0.get_params()["config"]
+        try:
+            est0.set_params(innovation_filtering=3.0)
+            after0 = est0.get_params()["config"]
+            if after0.innovation_filtering != 3.0 or (after0.max_dt_sec, after0.common_subexpression_elimination, after0.extra_validation) != (before0.max_dt_sec, before0.common_subexpression_elimination, before0.extra_validation):
+                problems.append(f"set_params(innovation_filtering=3.0) on an estimator with filtering off gave {after0}")
+        except Exception as e:
+            problems.append(f"set_params(innovation_filtering=3.0) on an estimator whose configuration has innovation_filtering=None raised {type(e).__name__}")
         try:
             est.set_params(not_a_parameter=1)
             problems.append("unknown parameter accepted")
